@@ -48,13 +48,14 @@ def run(ctx):
     # real OSUtils.get_temp_filename is tied to its own model here)
     from harness.props import c06temp, c19
     c06temp.check(ctx)
+    c06temp.platform_rename(ctx)
     # the process-pool downloader: allocate temp, finalize by rename or remove (C19's machinery)
     if len(ctx.violations) < 5:
         c19.sub_check(ctx, 'faults')
 
 
 def replay(ctx, data):
-    if data.get('component') == 'temp-name':
+    if data.get('component') in ('temp-name', 'platform-rename'):
         from harness.props import c06temp
         return c06temp.replay(ctx, data)
     return sysrun.replay_any(ctx, data, mons(), sampler=SAMPLER)
